@@ -113,8 +113,14 @@ class SeekableFile(io.BytesIO):
         self.closed_count = 0
         self.close_raises = None
         self.shrink_to = None  # storage fault: the file was truncated to this size after it was measured
+        self.read_raises = None  # (number of read() calls that succeed first, exception factory)
+        self.reads = 0
 
     def read(self, n=-1):
+        if self.read_raises is not None and self.reads >= self.read_raises[0]:
+            self.app.k.log("app_raise", "'file_read'", self.read_raises[1].__name__)
+            raise self.read_raises[1]()
+        self.reads += 1
         if self.shrink_to is not None:
             room = max(0, self.shrink_to - self.tell())
             n = room if (n is None or n < 0) else min(n, room)
@@ -330,6 +336,8 @@ class ScriptedApp:
             ra = sc.get("raise_at")
             if ra and ra[0] == "file_close" and kind == "file":
                 f.close_raises = ra[1]
+            if ra and ra[0] == "file_read" and kind == "file":
+                f.read_raises = (1, ra[1])  # the second read() of the handed-over file fails
             if sc.get("file_shrinks") and kind == "file":
                 # seek()/tell() keep reporting the old size, read() meets the new end of the file
                 f.shrink_to = max(f.tell(), len(data) - sc["file_shrinks"])
